@@ -21,6 +21,7 @@ def main():
   ap = argparse.ArgumentParser()
   ap.add_argument('--patch')
   ap.add_argument('--replace', action='append', default=[])
+  ap.add_argument('--replace-json', help='file holding [[path, old, new], ...]')
   ap.add_argument('--props', default='')
   ap.add_argument('--all', action='store_true')
   ap.add_argument('--tier', default='quick')
@@ -41,8 +42,10 @@ def main():
       if r.returncode:
         print('PATCH DOES NOT APPLY:', r.stdout); out['applies'] = False
         return 3
-    for spec in a.replace:
-      f, old, new = spec.split('::')
+    triples = [spec.split('::') for spec in a.replace]
+    if a.replace_json:
+      triples += json.load(open(a.replace_json))
+    for f, old, new in triples:
       path = os.path.join(scratch, f)
       s = open(path).read()
       if old not in s:
